@@ -326,6 +326,122 @@ Definition fault_defect (c : bool) (src : tree) (f : fault) : option str :=
       else Some (s "plain-store-walk-error-partial-hit")
   end.
 
+(* ---- Retrieve into an output directory that is NOT clean; outputs that may be nested ----
+   (dir_cache.go: retrieveFiles' loop :209-219, retrieveCompressed :239-275, ensureRetrieveReady
+   :280-293; copy.go RecursiveCopyOrLinkFile / CopyOrLinkFile; fs.go WriteFile)
+
+   An output is now a PATH below the target's out directory ("sub/tree" = [sub; tree]); `out` is the
+   out directory as a previous build (another version of the same outputs, anything else) left it.
+   ensureRetrieveReady is a list of operations per kind of path (one that contains a '/', one that
+   does not): the lists the source has are src_opsN / src_opsT below; Gen.C12Store.retrieve_ready is
+   the function as gotrans reads it and Proof.C12_Gen ties the two. *)
+Inductive rop := OMkdirParent | ORemoveAll.
+
+(* os.MkdirAll(filepath.Dir(fullOut)); a non-directory in the way is not modelled (see props/C12.json) *)
+Definition mk_parents (p : path) (out : tree) : tree :=
+  fold_left (fun o q => if mem q o then o else o ++ [(q, D)]) (parents p) out.
+
+Definition ready_op (p : path) (out : tree) (o : rop) : tree :=
+  match o with
+  | OMkdirParent => mk_parents p out
+  | ORemoveAll => drop_sub p out                             (* fs.RemoveAll(fullOut) *)
+  end.
+Definition ready (ops : list rop) (p : path) (out : tree) : tree := fold_left (ready_op p) ops out.
+
+(* strings.ContainsRune(out, '/') *)
+Definition nested (p : path) : bool := match p with _ :: _ :: _ => true | _ => false end.
+Definition pick {A} (p : path) (n t : A) : A := if nested p then n else t.
+
+Definition src_opsN : list rop := [OMkdirParent; ORemoveAll].
+Definition src_opsT : list rop := [ORemoveAll].
+Definition src_trunc : bool := false.                        (* os.O_WRONLY|os.O_CREATE  :262 *)
+
+(* RecursiveLink's action on one walked entry when the destination may be occupied: MkdirAll for a
+   directory; os.Symlink (EEXIST); os.Link, and on EEXIST the copy fallback, which writes a temporary
+   file and renames it over the destination (that fails on a directory). None = an error, which
+   retrieve() reports as a miss. *)
+Definition place_p (out : tree) (e : path * ent) : option tree :=
+  match lookup (fst e) out with
+  | None => Some (out ++ [e])
+  | Some old =>
+      match snd e, old with
+      | D, D => Some out
+      | F _ _, D => None
+      | F _ _, _ => Some (remove (fst e) out ++ [e])
+      | _, _ => None
+      end
+  end.
+
+(* retrieveCompressed's action on one archive entry: MkdirAll / os.Symlink / OpenFile(O_WRONLY|O_CREATE
+   [|O_TRUNC when tr]) + io.Copy: an existing regular file keeps its mode and, without O_TRUNC, every
+   byte behind the new content.  (A write THROUGH an existing symlink is reported as an error here;
+   it is only reachable when the destination has not been removed.) *)
+Definition place_c (tr : bool) (out : tree) (e : path * ent) : option tree :=
+  match lookup (fst e) out with
+  | None => Some (out ++ [e])
+  | Some old =>
+      match snd e, old with
+      | D, D => Some out
+      | F c _, F c0 x0 => Some (remove (fst e) out ++ [(fst e, F (if tr then c else c ++ skipn (length c) c0) x0)])
+      | _, _ => None
+      end
+  end.
+
+Definition opt_fold {A B} (f : A -> B -> option A) (l : list B) (a : option A) : option A :=
+  fold_left (fun acc x => match acc with None => None | Some v => f v x end) l a.
+
+Fixpoint retr_into_plain (opsN opsT : list rop) (st : fs) (outs : list path) (out : tree) : option tree :=
+  match outs with
+  | [] => Some out
+  | p :: r =>
+      let out1 := ready (pick p opsN opsT) p out in          (* ensureRetrieveReady(target, out) *)
+      match lookup (kK :: p) st with
+      | None => None                                         (* Lstat: not exist -> false, err *)
+      | Some _ =>
+          match opt_fold place_p (strip 1 (ents (sub (kK :: p) st))) (Some out1) with
+          | None => None
+          | Some out2 => retr_into_plain opsN opsT st r out2
+          end
+      end
+  end.
+
+Definition unpack1_into (tr : bool) (opsN opsT : list rop) (out : tree) (e : path * ent) : option tree :=
+  place_c tr (ready (pick (fst e) opsN opsT) (fst e) out) e. (* ensureRetrieveReady(target, hdr.Name) *)
+
+(* Retrieve(key, outs) with the out directory in state out0: None = false, Some r = true and the out
+   directory afterwards *)
+Definition retrieve_into (c tr : bool) (opsN opsT : list rop) (st : fs) (outs : list path) (out0 : tree) : option tree :=
+  match lookup [kK] st with
+  | None => None
+  | Some n =>
+      match outs with
+      | [] => Some out0
+      | _ =>
+          if c then match n with
+                    | Tar t => opt_fold (unpack1_into tr opsN opsT) t (Some out0)
+                    | _ => None
+                    end
+          else retr_into_plain opsN opsT st outs out0
+      end
+  end.
+
+(* what a retrieve of the trees T of `outs` must leave: per output, the intermediate directories,
+   nothing of what was below the output before, the stored tree *)
+Definition restore1 (T : tree) (acc : tree) (p : path) : tree := drop_sub p (mk_parents p acc) ++ sub p T.
+Definition restore (T : tree) (outs : list path) (out0 : tree) : tree := fold_left (restore1 T) outs out0.
+
+(* the archive of nested outputs, and the walk-order condition relative to an output's own root *)
+Definition packp (T : tree) (outs : list path) : tree := flat_map (fun p => sub p T) outs.
+Definition pars (p : path) : tree := map (fun q => (q, D)) (parents p).
+Definition rootb (p : path) (X : tree) : bool := match X with (q, _) :: _ => path_eqb q p | [] => false end.
+Definition trees_okb (T : tree) (outs : list path) : bool :=
+  forallb (fun p => rootb p (sub p T) && wfb_from (pars p) (sub p T)) outs.
+Fixpoint indepb (outs : list path) : bool :=
+  match outs with
+  | [] => true
+  | p :: r => forallb (fun q => negb (is_prefix p q) && negb (is_prefix q p)) r && indepb r
+  end.
+
 (* ---- correspondence cases ---- *)
 Definition ent_eqb (a b : ent) : bool :=
   match a, b with
@@ -366,7 +482,10 @@ Inductive case :=
 (* a store that meets a read fault `f` (and / or outputs absent from `src`), run to its end, then a
    Retrieve into a clean output directory *)
 | CFault (c : bool) (order : list path) (prior : fs) (outs : list str) (src : tree) (f : fault)
-         (post : fs) (res : result).
+         (post : fs) (res : result)
+(* a Retrieve of `outs` (paths, possibly nested) from the cache state `st` into an out directory that
+   holds `out0`.  Observed: the return value and the out directory afterwards. *)
+| CDirty (c : bool) (st : fs) (outs : list path) (out0 : tree) (hit : bool) (out1 : tree).
 
 Definition check (k : case) : bool :=
   match k with
@@ -382,4 +501,9 @@ Definition check (k : case) : bool :=
   | CFault c order prior outs src f post res =>
       set_eqb pn_eqb (run (store_steps_f c order prior outs src f) prior) post
       && result_eqb (retrieve c post outs) res
+  | CDirty c st outs out0 hit out1 =>
+      match retrieve_into c src_trunc src_opsN src_opsT st outs out0 with
+      | None => negb hit
+      | Some r => hit && set_eqb pe_eqb r out1
+      end
   end.
